@@ -526,7 +526,7 @@ func readFileOr(args []string) string {
 // Position sweep: every operator x operand kinds, evaluated as a statement, as a rule pattern and as a
 // root selector (selectors are evaluated by an evaluator of their own).  Claim: ok or runtime error.
 
-var posOperands = []string{`1`, `0`, `(0 - 2.5)`, `"a"`, `"^a"`, `"("`, `""`, `"12"`, `true`, `null`, `[1, "a"]`, `[]`, `{a: 1}`, `/a+/`, `unsetv`, `$`, `$.kind`, `$[0]`, `$.items`, `fnv`}
+var posOperands = []string{`0.5`, `(0 - 0.3)`, `"0.3"`, `1e-9`, `9223372036854775807`, `(0 - 9223372036854775808)`, `1e300`, `num("nan")`, `num("inf")`, `1`, `0`, `(0 - 2.5)`, `"a"`, `"^a"`, `"("`, `""`, `"12"`, `true`, `null`, `[1, "a"]`, `[]`, `{a: 1}`, `/a+/`, `unsetv`, `$`, `$.kind`, `$[0]`, `$.items`, `fnv`}
 var posBinOps = []string{"+", "-", "*", "/", "%", "<", "<=", ">", ">=", "==", "!=", "~", "!~", "&&", "||", "is", " "}
 var posUnOps = []string{"!", "-", "+"}
 
@@ -856,6 +856,87 @@ func checkC01Edges(c *Ctx) {
 		default:
 			c.Violation("edge-"+r.Class, map[string]any{"statement": jobs[i].Tag, "program": string(jobs[i].Prog), "got_class": r.Class, "got_err": r.ErrMsg, "detail": firstN(r.Detail, 1500),
 				"why": "indexing / printf at the edges of the index and width ranges must succeed or fail with a runtime error"})
+		}
+	})
+}
+
+// Signals raised inside expressions: a match arm that executes next / exit / break / continue / return while it
+// is an operand, an argument, an element of a literal, a condition.  The signal does what it does anywhere
+// else, so the run succeeds: any error here is a signal (or something else) surfacing as an error.
+func checkC01SignalsInExpressions(c *Ctx) {
+	pool := c.Pool()
+	holders := []string{"print 1, M", "print M, 2", "x = [1, M, 3]", "x = {a: 1, b: M}", "x = idf(M)", "x = idf(1, M)", "x = 1 + M", "x = M * 2", "x = -M", "x = !M", "x = (M).a", "x = arr[M]",
+		"arr.push(M)", "x = arr.contains(M)", "if (M) { print \"t\" }", "while (M) { break }", "for (i = M; i < 1; i++) { }", "for (k in [M]) { }", "printf(\"%v\\n\", M)", "x = json(M)",
+		"x = M ~ \"a\"", "x = 1 < M", "x = M && 1", "x = 0 || M", "x = M is number", "x = match (M) { _ => 1 }", "x = match (1) { _ => M }", "arr[0] = M", "obj.k = M", "x += M", "x = num(M)"}
+	var jobs []Job
+	mk := func(sig, holder, ctx string) {
+		m := "match (1) { _ => {\n    " + sig + "\n  } }"
+		st := strings.ReplaceAll(holder, "M", m)
+		prog := "function idf(a, b) {\n  return a\n}\n" + fmt.Sprintf(ctx, st)
+		jobs = append(jobs, Job{Kind: "run", Prog: []byte(prog), Files: []FileIn{{Name: "in.json", Data: []byte("[1, 2]")}}, Budget: 100000, Tag: sig + " in " + holder})
+	}
+	pre := "  arr = [1]\n  obj = {}\n  x = 0\n"
+	for _, h := range holders {
+		mk("next", h, "{\n"+pre+"  %s\n  print \"after\"\n}\nEND {\n  print \"end\"\n}\n")
+		mk("exit", h, "{\n"+pre+"  %s\n  print \"after\"\n}\nEND {\n  print \"end\"\n}\n")
+		mk("exit", h, "BEGIN {\n"+pre+"  %s\n  print \"after\"\n}\n")
+		mk("break", h, "{\n"+pre+"  for (q in [1, 2]) {\n  %s\n  print \"after\"\n  }\n  print \"out\"\n}\n")
+		mk("continue", h, "{\n"+pre+"  for (q in [1, 2]) {\n  %s\n  print \"after\"\n  }\n  print \"out\"\n}\n")
+		mk("continue", h, "{\n"+pre+"  n = 0\n  while (n < 2) {\n  n++\n  %s\n  print \"after\"\n  }\n  print \"out\"\n}\n")
+		mk("return 5", h, "function g() {\n"+pre+"  %s\n  print \"after\"\n  return 6\n}\n{\n  print g()\n}\n")
+		mk("return", h, "function g() {\n"+pre+"  %s\n  print \"after\"\n}\nBEGIN {\n  print g()\n}\n")
+		mk("next", h, "function g() {\n"+pre+"  %s\n  print \"after\"\n}\n{\n  g()\n  print \"not\"\n}\n")
+	}
+	pool.Map(jobs, func(i int, r Result) {
+		switch r.Class {
+		case "ok":
+			c.Case("sigexpr:"+jobs[i].Tag+string(jobs[i].Prog[:20]), true)
+		case "syntax":
+			c.Count("sigexpr_not_grammatical", 1)
+		case "budget", "timeout":
+			c.Count("inconclusive", 1)
+		default:
+			c.Violation("signal-in-expression-"+r.Class, map[string]any{"case": jobs[i].Tag, "program": string(jobs[i].Prog), "got_class": r.Class, "got_err_type": r.ErrType, "got_err": r.ErrMsg,
+				"got_stdout": firstN(string(r.Stdout), 300), "detail": firstN(r.Detail, 800),
+				"why": "a control-flow statement executed inside an expression still only transfers control: the run succeeds; an error here is the signal surfacing"})
+		}
+	})
+}
+
+// Arrays reachable through several references while one of them changes the length (pop, popfirst, push beyond
+// the capacity, a far index write, sort): whatever the other references then show (the open finding
+// alias-length), reading through them succeeds or is a runtime error.
+func checkC01AliasesAfterShrink(c *Ctx) {
+	pool := c.Pool()
+	holds := []string{"b = a", "o = {k: a}\n  b = o.k", "keep(a)\n  b = gp", "b = [a][0]", "b = idf(a)", "m = match (a) { t => t }\n  b = m"}
+	muts := []string{"a.pop()", "a.popfirst()", "a.pop()\n  a.pop()\n  a.pop()", "a.push(1)\n  a.push(2)\n  a.push(3)\n  a.push(4)\n  a.push(5)", "a[9] = 1", "a.pop()\n  a.push(7)", "a.popfirst()\n  a[5] = 2", "x = a.sort()"}
+	reads := []string{"print b", "print b.length(), a.length()", "print json(b)", "for (v, i in b) {\n    print i, v\n  }", "print b.contains(3)", "print b[2], b[0 - 1]", "print match (b) { [x, y, z] => z, _ => \"other\" }",
+		"print b.sort()", "b.push(9)\n  print a, b", "print b.pop(), b.popfirst()", "b[1] = 5\n  print a, b", "print b == b"}
+	var jobs []Job
+	for _, h := range holds {
+		for _, m := range muts {
+			for _, rd := range reads {
+				for _, init := range []string{"a = [1, 2, 3]", "a = $.l"} {
+					prog := "function keep(p) {\n  gp = p\n}\nfunction idf(p) {\n  return p\n}\n{\n  " + init + "\n  " + h + "\n  " + m + "\n  " + rd + "\n}\nEND {\n  print $\n}\n"
+					jobs = append(jobs, Job{Kind: "run", Prog: []byte(prog), Files: []FileIn{{Name: "in.json", Data: []byte(`[{"l":[1,2,3]},{"l":[[1],{"a":2},3]}]`)}}, Budget: 100000, Tag: h + " ; " + m + " ; " + rd})
+				}
+			}
+		}
+	}
+	// the iterated array shrinks or grows while a for-in over it runs
+	for _, m := range muts {
+		prog := "{\n  a = $.l\n  for (v, i in a) {\n    print i, v\n    " + m + "\n  }\n  print a\n}\n"
+		jobs = append(jobs, Job{Kind: "run", Prog: []byte(prog), Files: []FileIn{{Name: "in.json", Data: []byte(`[{"l":[1,2,3]},{"l":[[1],{"a":2},3]}]`)}}, Budget: 100000, Tag: "for-in ; " + m})
+	}
+	pool.Map(jobs, func(i int, r Result) {
+		switch r.Class {
+		case "ok", "runtime", "syntax":
+			c.Case("alias:"+jobs[i].Tag+string(jobs[i].Prog[60:80]), r.Class != "syntax")
+		case "budget", "timeout":
+			c.Count("inconclusive", 1)
+		default:
+			c.Violation("alias-shrink-"+r.Class, map[string]any{"case": jobs[i].Tag, "program": string(jobs[i].Prog), "got_class": r.Class, "got_err": r.ErrMsg, "detail": firstN(r.Detail, 1500),
+				"why": "reading an array through another reference after its length changed must succeed or fail with a runtime error"})
 		}
 	})
 }
